@@ -159,11 +159,16 @@ def run(ctx):
         order = [int(i) for i in np.argsort(pf)]
         ops.append(f"fwer|{int(plus1)}|{name}|{rats(pv)}|{ints(order)}|{rows(D)}"); meta.append((det, out))
     # very long permutation distributions (B on and past 2^16): exact integer oracle, vectorised
-    for B in ([65536, 65537, 70000] if ctx.thorough() else [ctx.rng.choice([65537, 70000])]):
+    for B in ([65536, 65537, 70000, 131073] if ctx.thorough() else [ctx.rng.choice([70000, 81920 + 4321])] + ([65537] if ctx.rng.random() < 0.3 else [])):      # (well past 2^16 always: one row past it is nearly invisible)
         j_ = ctx.rng.randint(2, 3); plus1 = ctx.rng.random() < 0.5; c_ = 1 if plus1 else 0
         rs = np.random.RandomState(ctx.rng.randint(0, 10**6))
         Dbig = rs.randint(0, 10, size=(B, j_))
         ks = sorted(ctx.rng.sample(range(1, B + c_), j_)); ctx.rng.shuffle(ks)
+        if ctx.rng.random() < 0.7:      # the observed p-values of a row of the table itself: the NPC values are then spread over (0, 1), not piled up at an end
+            rrow_ = Dbig[rs.randint(0, B)]
+            ks = [int((Dbig[:, jj] >= rrow_[jj]).sum()) + c_ for jj in range(j_)]
+            if len(set(ks)) < j_:
+                ks = [k_ + 3 * i_ for i_, k_ in enumerate(ks)]; ks = [min(k_, B + c_ - 1) for k_ in ks]
         pvb = np.array([k / (B + c_) for k in ks])
         for comb_ in ("fisher", "tippett"):
             r = guarded(npc.fwer_minp, pvb, Dbig.astype(float), comb_, plus1, secs=120)
